@@ -19,11 +19,13 @@ package sam
 //@ spec func opLen(co CigarOp) int = int(co >> 4)
 //@ spec func wfCigar(c Cigar) bool = len(c) <= 65535 && forall i in 0..len(c) :: opType(c[i]) <= 10
 
+// Consumes is also an accessor applied to decoded records (C11): BAM stores the
+// operation in four bits, so codes 11..15 reach it and must not panic.
 //@ func CigarOpType.Consumes
 //@   mode int
-//@   props C16
-//@   requires ct <= 10
-//@   ensures[C16] @table result.Query == opQ(ct) && result.Reference == opR(ct)
+//@   props C16, C11
+//@   ensures[C16] @table ct <= 10 ==> (result.Query == opQ(ct) && result.Reference == opR(ct))
+//@   ensures[C11] @unknownop ct > 10 ==> (result.Query == 0 && result.Reference == 0)
 //@   ensures[C16] @range (result.Query == 0 || result.Query == 1) && (result.Reference == 0 || result.Reference == 1 || result.Reference == 0 - 1)
 
 //@ func CigarOp.Type
